@@ -49,6 +49,10 @@ type KnownFinding struct {
 	Region   string `json:"region,omitempty"`
 	Replay   string `json:"replay,omitempty"`
 	Commit   string `json:"commit,omitempty"`
+	// ViolationIDs: when non-empty, the finding covers only violations whose id starts with one of
+	// these prefixes (e.g. the unprotected accesses of named functions); any other violation inside the
+	// region is reported as new.
+	ViolationIDs []string `json:"violation_ids,omitempty"`
 }
 
 type Engine struct {
@@ -65,6 +69,7 @@ type Engine struct {
 	ioErrUnexpectedEOF *ssa.Global
 
 	knownOpen map[string]bool
+	knownIDs  map[string][]string
 	known     []KnownFinding
 
 	concCap  int
@@ -130,7 +135,7 @@ func buildOverlay(hdir string) (map[string][]byte, error) {
 				return nil, err
 			}
 			s := strings.Replace(string(b), "package PKG", "package "+pn, 1)
-			ov[filepath.Join("/repo", dir, "zz_verif_"+filepath.Base(f))] = []byte(s)
+			ov[filepath.Join(repoRoot, dir, "zz_verif_"+filepath.Base(f))] = []byte(s)
 		}
 		own, _ := filepath.Glob(filepath.Join(hdir, pn, "*.go"))
 		for _, f := range own {
@@ -138,7 +143,7 @@ func buildOverlay(hdir string) (map[string][]byte, error) {
 			if err != nil {
 				return nil, err
 			}
-			ov[filepath.Join("/repo", dir, "zz_verif_"+filepath.Base(f))] = b
+			ov[filepath.Join(repoRoot, dir, "zz_verif_"+filepath.Base(f))] = b
 		}
 	}
 	return ov, nil
@@ -152,7 +157,7 @@ func LoadEngine(hdir string) (*Engine, error) {
 	}
 	cfg := &packages.Config{
 		Mode:       packages.LoadAllSyntax,
-		Dir:        "/repo",
+		Dir:        repoRoot,
 		Overlay:    ov,
 		BuildFlags: []string{"-tags=gosmt"},
 		Env:        append(os.Environ(), "GOFLAGS=-mod=mod", "GOPROXY=off", "GOSUMDB=off", "GOTOOLCHAIN=local"),
@@ -254,6 +259,10 @@ func (e *Engine) loadKnown(path, prop string) {
 		e.known = append(e.known, k)
 		if k.Status == "open" {
 			e.knownOpen[k.ID] = true
+			if e.knownIDs == nil {
+				e.knownIDs = map[string][]string{}
+			}
+			e.knownIDs[k.ID] = k.ViolationIDs
 		}
 	}
 }
@@ -683,7 +692,20 @@ func kindOf(t *Term) string {
 func (ex *Exec) recordViolation(id, msg string, nc *Term) {
 	p := ex.pool
 	kr := p.Bool(false)
+	var known []knownRegion
 	for _, k := range ex.known {
+		if pre := ex.eng.knownIDs[k.id]; len(pre) > 0 {
+			hit := false
+			for _, q := range pre {
+				if strings.HasPrefix(id, q) {
+					hit = true
+				}
+			}
+			if !hit {
+				continue
+			}
+		}
+		known = append(known, k)
 		kr = p.Or(kr, k.region)
 	}
 	newCond := p.And(nc, p.Not(kr))
@@ -692,7 +714,7 @@ func (ex *Exec) recordViolation(id, msg string, nc *Term) {
 			ex.violations = append(ex.violations, Violation{Harness: ex.h.Name, ID: id, Msg: msg, Inputs: in, Kinds: ex.inputKinds(), Obs: obs, Path: append([]Decision{}, ex.taken...)})
 		}
 	}
-	for _, k := range ex.known {
+	for _, k := range known {
 		kc := p.And(nc, k.region)
 		if ex.feasible(kc) {
 			if in, obs, ok := ex.modelFor(kc); ok {
